@@ -36,7 +36,7 @@ LEVEL_TEXT = (
 )
 LEVEL_NOTE = "single actor, no time loop: the only schedule dimension is list order; error message texts are ignored"
 
-KNOWN_PREDICATES = {"size_constrained_axis_without_position": pc.known_c27}
+KNOWN_PREDICATES = dict(pc.KNOWN_C27)
 
 
 def generate(rng, tier, index):
